@@ -442,15 +442,13 @@ class Scanner:
                 best = m
         return best.start() if best is not None else None
 
-def _regexp_has_newline(r: str):
-    r"""Expressions that may indicate newlines in a regexp:
-        - newlines (\n)
-        - escaped newline (\\n)
-        - anything but ([^...])
-        - any-char (.) when the flag (?s) exists
-        - spaces (\s)
+def _may_contain_newline(pattern: Pattern) -> bool:
+    """Whether a token matched by this pattern might contain a newline.
+
+    A string pattern matches exactly its own text, so the answer is exact. For a regexp there are too
+    many ways to match a newline (\\D, \\W, ranges, flags, ...), so we always count its newlines.
     """
-    return '\n' in r or '\\n' in r or '\\s' in r or '[^' in r or ('(?s' in r and '.' in r)
+    return pattern.type == "re" or '\n' in pattern.value
 
 
 class LexerState:
@@ -623,7 +621,7 @@ class BasicLexer(AbstractBasicLexer):
                 raise LexError("interegular must be installed for strict mode. Use `pip install 'lark[interegular]'`.")
 
         # Init
-        self.newline_types = frozenset(t.name for t in terminals if _regexp_has_newline(t.pattern.to_regexp()))
+        self.newline_types = frozenset(t.name for t in terminals if _may_contain_newline(t.pattern))
         self.ignore_types = frozenset(conf.ignore)
 
         terminals.sort(key=lambda x: (-x.priority, -x.pattern.max_width, -len(x.pattern.value), x.name))
